@@ -125,7 +125,7 @@ static void watchdog()
     struct timespec ts{0, 50000000};
     nanosleep(&ts, nullptr);
     long long s = g_op_started_ns.load(std::memory_order_acquire);
-    if (s != 0 && realNowNs(CLOCK_REALTIME) - s > 2000000000LL)
+    if (s != 0 && realNowNs(CLOCK_MONOTONIC) - s > 2000000000LL)
     {
       std::fflush(stdout);
       std::fputs("hang\n", stdout);
@@ -224,7 +224,7 @@ int main()
   st.reset(10, 8, 2);
   int rc = vh::runLines([&](const std::vector<std::string>& t) -> std::string {
     std::fflush(stdout);   // answers of earlier ops must survive a sanitizer abort inside this one
-    g_op_started_ns.store(realNowNs(CLOCK_REALTIME), std::memory_order_release);
+    g_op_started_ns.store(realNowNs(CLOCK_MONOTONIC), std::memory_order_release);
     std::string out = guarded([&]() -> std::string {
       long long a = 0, b = 0, c = 0;
       if (t.size() == 4 && t[0] == "reset" && parseInt(t[1], a) && parseInt(t[2], b) && parseInt(t[3], c))
@@ -243,6 +243,13 @@ int main()
       {
         g_vns.store(a);
         return "ok";
+      }
+      if (t.size() == 1 && t[0] == "vclock")
+      {
+        // the steady clock the wheel reads IS the virtual one (the interposed clock_gettime is the one libstdc++ reaches)
+        auto now = std::chrono::duration_cast<std::chrono::nanoseconds>(TimingWheel::Clock::now().time_since_epoch()).count();
+        bool ok = now == g_base_ns.load() + g_vns.load() && g_clock_reads.load() > 0;
+        return ok ? "virtual" : "clock-not-interposed";
       }
       if (t.size() == 2 && t[0] == "sched" && parseInt(t[1], a))
         return std::to_string(st.sched(a));
